@@ -157,7 +157,7 @@ def check(rep, F, tier, replay=None):
         ffs = ff.FnFields(F, fid)
         org = ff.Origins(F, fid)
         TX = "Transaction"
-        aggs = [x for x in ffs.aggs if x[0].endswith("::Transaction")]
+        aggs = [x for x in ffs.aggs if x[0] == "Transaction" or x[0].endswith("::Transaction")]
         if len(aggs) != 1:
             rep.lost("Transaction literal in build_tx_unsafe")
         else:
